@@ -218,15 +218,18 @@ const sigBigNegative = "C17/gaussian/bignum-path/negative-value-exceeds-bound"
 func gaussianBigScenario() engine.Scenario {
 	name := "gaussian/bignum-path"
 	return engine.Scenario{Name: name, Bound: -1, Fn: func(c *engine.Chooser) {
-		sigma := []float64{math.Exp2(54), math.Exp2(64), math.Exp2(100)}[c.Choose(3, "sigma")]
-		bk := c.Choose(3, "bound")
-		bound := []float64{6 * sigma, 2 * sigma, math.Exp2(65)}[bk]
+		// sigma just above the 2^53 switch of the big-number path, and up to 2^100
+		sigmas := []float64{math.Exp2(54), math.Exp2(64), math.Exp2(100), math.Exp2(53) * (1 + math.Exp2(-20)), math.Exp2(59) * 1.37, math.Exp2(80)}
+		sigma := sigmas[c.Choose(len(sigmas), "sigma")]
+		bk := c.Choose(6, "bound")
+		// bounds: multiples of sigma and absolute bounds just above the 2^64-1 switch
+		bound := []float64{6 * sigma, 2 * sigma, math.Exp2(65), math.Exp2(64) * (1 + math.Exp2(-40)), 12 * sigma, 3.4426 * sigma}[bk]
 		if bound <= math.MaxUint64 || bound < sigma {
 			c.Skip("bound not above 2^64 (small path) or below sigma")
 			return
 		}
 		// first draw: enumerated; norm≈3.4 on the top of strip 1.. / tail of strip 0 (uniform tiny => norm≈14) / small
-		kind := c.Choose(4, "first-draw")
+		kind := c.Choose(6, "first-draw")
 		sign := uint32(c.Choose(2, "sign")) // 1: positive, 0: negative
 		mont := c.Choose(2, "montgomery") == 1
 		ch := bigChain()
@@ -249,6 +252,20 @@ func gaussianBigScenario() engine.Scenario {
 			pre = append(pre, le64(0x1fffffffffffff)...)
 			pre = append(pre, le64(0x1fffffffffffff)...)
 			overBound = bound < 3.4*sigma
+		case 4: // tail of the base strip with the uniform that puts norm·sigma just above the bound (if bound/sigma > rn)
+			target := bound/sigma + 0.01
+			if target <= rnZig {
+				c.Skip("bound below the start of the tail")
+				return
+			}
+			u := math.Exp(-(target - rnZig) * rnZig)
+			pre = append(pre, zigSlot(0, 0xFFFFFF, sign, 0)...)
+			pre = append(pre, le64(uint64(u*float64(0x1fffffffffffff)))...)
+			pre = append(pre, le64(0)...)
+			overBound = true
+		case 5: // a wedge (slow path of an inner strip): top magnitude of strip 64, then a uniform deciding acceptance
+			pre = append(pre, zigSlot(64, 0xFFFFFF, sign, 0)...)
+			pre = append(pre, le64(1)...)
 		}
 		env := newPRNG(&stream{prefix: pre, bgSeed: 57})
 		cfg := gaussCfg{fmt.Sprintf("sigma=2^%.0f,bound=%.3g", math.Log2(sigma), bound), sigma, bound, ch}
